@@ -93,7 +93,11 @@ class G:
 
     def kids(self, d):
         n = self.rng.choice([0, 1, 1, 2, 2, 3, 4])
-        return [self.term(d) for _ in range(n)]
+        out = [self.term(d) for _ in range(n)]
+        if out and d < self.maxdepth and self.rng.random() < 0.06:
+            # an inner node of a stack (errors.Unwrap of a *Stack), only ever as an operand
+            out[self.rng.randrange(len(out))] = ["UWS", ["S"] + [self.term(d + 1) for _ in range(self.rng.choice([1, 2, 3, 4]))]]
+        return out
 
 
 def gen(rng, tier, open_keys):
@@ -147,6 +151,11 @@ def ev(t):
         if inner is None or (inner[0] == "S" and not inner[2]):   # ers.Ok: nil or an empty *Stack
             return None
         return resolve(list(reversed(parts_all([inner, ("L", int(t[1]), None)]))))
+    if h == "UWS":
+        v = ev(t[1])
+        if v is not None and v[0] == "S":
+            return ("S", None, v[2][1:]) if len(v[2]) >= 2 else None
+        return v
     if h == "V":
         return ev(t[1])
     if h == "P":
